@@ -61,6 +61,8 @@ func (obj SingleFloat) Equal(other Object) (eq bool) {
 		eq = obj == SingleFloat(to)
 	case Octet:
 		eq = obj == SingleFloat(to)
+	case Bit:
+		eq = obj == SingleFloat(to)
 	case SingleFloat:
 		eq = obj == to
 	case DoubleFloat:
